@@ -223,3 +223,16 @@ Lemma cnt_perm a b : (forall u, cnt u a = cnt u b) -> Permutation (map uid a) (m
 Proof.
   intros H. apply (Permutation_count_occ Z.eq_dec). intros u. rewrite <- !cnt_count_occ. apply H.
 Qed.
+
+(* every chain of public Moment calls keeps the qubits of its operations pairwise disjoint *)
+From VF Require Import Circ.MomentCalls.
+Theorem moment_history_wf h : forall m, moment_wf m -> Forall mcall_wf h -> moment_wf (mrun m h).
+Proof.
+  induction h as [|x r IH]; intros m Hm Hh; simpl; [exact Hm|].
+  inversion Hh as [|? ? Hx Hr]; subst. apply IH; [|exact Hr].
+  destruct x; simpl in *.
+  - destruct (with_operation m o) as [m'|] eqn:E; simpl; [eapply with_operation_wf; eassumption|exact Hm].
+  - destruct (with_operations m ops) as [m'|] eqn:E; simpl; [eapply with_operations_wf; eassumption|exact Hm].
+  - apply filter_moment_wf. exact Hm.
+  - destruct (mk_moment ops) as [m'|] eqn:E; simpl; [eapply mk_moment_wf; eassumption|exact Hm].
+Qed.
